@@ -50,8 +50,314 @@ Qed.
 Lemma lay_rl_app a b : lay_rl (a ++ b) = lay_rl a ++ lay_rl b.
 Proof. unfold lay_rl. apply flat_map_app. Qed.
 
-Lemma rlines_adv : forall pre st rest,
+Lemma vals_app a b : vals (a ++ b) = vals a ++ vals b.
+Proof. unfold vals. apply map_app. Qed.
+
+Lemma rlines_adv : forall pre st,
   forallb is_line pre = true ->
-  rlines st (vals (lay_rl pre) ++ rest) = rlines_tail (fold_left (fun s c => match c with ELine dx dy => line s (ev dx) (ev dy) | _ => s end) pre st) rest
-with rlines_tail_dummy : True.
-Proof. Abort.
+  pst_of (rlines st (vals (lay_rl pre))) = adv (pst_of st) pre.
+Proof.
+  induction pre as [|c t IH]; intros st H; [reflexivity|].
+  cbn [forallb] in H. apply andb_true_iff in H. destruct H as [Hc Ht].
+  destruct c; try discriminate.
+  unfold lay_rl. cbn [flat_map app vals map rlines].
+  change (map ev (flat_map (fun c => match c with ELine dx dy => [dx; dy] | _ => [] end) t))
+    with (vals (lay_rl t)).
+  rewrite IH by assumption. rewrite pst_of_line. reflexivity.
+Qed.
+
+Lemma rlines_pend st a : pend (rlines st a) = pend st /\ stk (rlines st a) = stk st.
+Proof. pose proof (keep_rlines (length a) a st (le_n _)) as K. unfold keep in K. tauto. Qed.
+
+(* the rlineto edge over the first k commands *)
+Lemma rlineto_edge_ok cs0 k :
+  run_wf cs0 -> (1 <= k <= length cs0)%nat -> forallb is_line (firstn k cs0) = true ->
+  (2 * k <= t2_max_stack)%nat ->
+  edge_ok cs0 (mkEdge (lay_rl (firstn k cs0)) ORlineto k).
+Proof.
+  intros Hwf Hk Hl Hfit. unfold edge_ok. cbn [e_to e_args e_op].
+  assert (Hlen : length (lay_rl (firstn k cs0)) = (2 * k)%nat).
+  { rewrite lay_rl_length by assumption. rewrite firstn_length. lia. }
+  split; [exact Hk|]. split.
+  { apply lay_rl_wf. rewrite <- (firstn_skipn k cs0) in Hwf. apply run_wf_app in Hwf. tauto. }
+  split; [lia|].
+  intros st p Hat Hm. cbn [do_op].
+  destruct Hat as (Hp & Hs & Hpend).
+  assert (Hn : length (args (tick st)) = (2 * k)%nat).
+  { unfold args. cbn [stk tick]. rewrite Hs, !rev_length. unfold vals. rewrite map_length. exact Hlen. }
+  rewrite Hn.
+  apply drawing_spec with (s := rev (vals (lay_rl (firstn k cs0)))).
+  - repeat split; assumption.
+  - apply andb_true_iff. split; [apply Nat.leb_le; lia|].
+    rewrite Nat.even_mul. reflexivity.
+  - exact Hm.
+  - rewrite rev_involutive. rewrite rlines_adv by assumption. rewrite pst_of_tick, Hp. reflexivity.
+  - rewrite rev_involutive. rewrite (proj1 (rlines_pend _ _)). exact Hpend.
+Qed.
+
+Lemma firstn_pre {A} (pre t : list A) : firstn (length pre) (pre ++ t) = pre.
+Proof. rewrite firstn_app, Nat.sub_diag, firstn_all. cbn. apply app_nil_r. Qed.
+
+Lemma fits_le code k : fits code k = true -> (length code + k <= t2_max_stack)%nat.
+Proof. unfold fits, enc_max_stack, t2_max_stack. intros H. apply Nat.leb_le in H. exact H. Qed.
+
+(* the state of the loop: [pre] has been consumed *)
+Definition rl_inv (cs0 pre cs : list ecmd) (code : list enum) (pos : nat) : Prop :=
+  cs0 = pre ++ cs /\ code = lay_rl pre /\ pos = length pre /\ forallb is_line pre = true.
+
+Lemma rl_loop_ok cs0 : run_wf cs0 -> forall cs pre code pos,
+  rl_inv cs0 pre cs code pos ->
+  Forall (edge_ok cs0) (fst (rl_loop cs code pos)) /\
+  (let '(rest, codef, posf) := snd (rl_loop cs code pos) in
+   exists pre', rl_inv cs0 pre' rest codef posf /\ (pos <= posf)%nat).
+Proof.
+  intros Hwf. induction cs as [|c t IH]; intros pre code pos Hinv.
+  - cbn. split; [constructor|]. exists pre. split; [exact Hinv|lia].
+  - destruct c as [a b|dx dy|a0 a1 a2 a3 a4 a5|k bs];
+      try (cbn; split; [constructor|]; exists pre; split; [exact Hinv|lia]).
+    cbn [rl_loop]. destruct (fits code 2) eqn:F;
+      [|cbn; split; [constructor|]; exists pre; split; [exact Hinv|lia]].
+    destruct Hinv as (H0 & Hc & Hp & Hl).
+    assert (Hinv' : rl_inv cs0 (pre ++ [ELine dx dy]) t (code ++ [dx; dy]) (S pos)).
+    { unfold rl_inv. repeat split.
+      - rewrite <- app_assoc. exact H0.
+      - rewrite lay_rl_app, Hc. reflexivity.
+      - rewrite app_length. cbn. lia.
+      - rewrite forallb_app, Hl. reflexivity. }
+    specialize (IH _ _ _ Hinv').
+    destruct (rl_loop t (code ++ [dx; dy]) (S pos)) as [es fin] eqn:E. cbn [fst snd] in *.
+    destruct IH as [IH1 IH2]. split.
+    + apply Forall_app. split; [|exact IH1].
+      match goal with |- Forall _ (if ?c then _ else _) => destruct c end; constructor; [|constructor].
+      destruct Hinv' as (H0' & Hc' & Hp' & Hl').
+      assert (Hf : firstn (S pos) cs0 = pre ++ [ELine dx dy]).
+      { rewrite Hp', H0'. apply firstn_pre. }
+      rewrite Hc', <- Hf.
+      apply rlineto_edge_ok; auto.
+      * rewrite H0'. rewrite app_length, <- Hp'. lia.
+      * rewrite Hf. exact Hl'.
+      * apply fits_le in F. rewrite Hc in F. rewrite lay_rl_length in F by assumption. lia.
+    + destruct fin as [[rest codef] posf]. destruct IH2 as (pre' & Hi & Hle).
+      exists pre'. split; [exact Hi|lia].
+Qed.
+
+Lemma rl_loop_advance cs code pos dx dy t :
+  cs = ELine dx dy :: t -> fits code 2 = true ->
+  let '(_, _, posf) := snd (rl_loop cs code pos) in (S pos <= posf)%nat.
+Proof.
+  intros -> F. cbn [rl_loop]. rewrite F.
+  destruct (rl_loop t (code ++ [dx; dy]) (S pos)) as [es [[rest codef] posf]] eqn:E. cbn [snd].
+  (* the position never decreases *)
+  assert (G : forall cs code pos, let '(_, _, pf) := snd (rl_loop cs code pos) in (pos <= pf)%nat).
+  { clear. induction cs as [|c t IH]; intros code pos; [cbn; lia|].
+    destruct c; try (cbn; lia). cbn [rl_loop]. destruct (fits code 2); [|cbn; lia].
+    specialize (IH (code ++ [dx; dy]) (S pos)).
+    destruct (rl_loop t (code ++ [dx; dy]) (S pos)) as [es [[rest codef] posf]]. cbn [snd] in *. lia. }
+  specialize (G t (code ++ [dx; dy]) (S pos)). rewrite E in G. cbn [snd] in G. exact G.
+Qed.
+
+(* ---------------- rrcurveto ---------------- *)
+
+Definition lay_rr (pre : list ecmd) : list enum :=
+  flat_map (fun c => match c with ECurve a b c d e f => [a; b; c; d; e; f] | _ => [] end) pre.
+
+Lemma lay_rr_length pre : forallb is_curve pre = true -> length (lay_rr pre) = (6 * length pre)%nat.
+Proof.
+  induction pre as [|c t IH]; [reflexivity|]. cbn [forallb]. intros H. apply andb_true_iff in H.
+  destruct H as [Hc Ht]. destruct c; try discriminate. cbn [lay_rr flat_map app length] in *.
+  unfold lay_rr in IH. rewrite IH by assumption. lia.
+Qed.
+
+Lemma lay_rr_wf pre : run_wf pre -> Forall wf_enum (lay_rr pre).
+Proof.
+  induction pre as [|c t IH]; intros H; [constructor|]. inversion H; subst.
+  unfold lay_rr. cbn [flat_map]. apply Forall_app. split; [|apply IH; assumption].
+  destruct c; cbn [cmd_enums] in *; auto.
+Qed.
+
+Lemma lay_rr_app a b : lay_rr (a ++ b) = lay_rr a ++ lay_rr b.
+Proof. unfold lay_rr. apply flat_map_app. Qed.
+
+Lemma rcurves_adv : forall pre st,
+  forallb is_curve pre = true ->
+  pst_of (rcurves st (vals (lay_rr pre))) = adv (pst_of st) pre.
+Proof.
+  induction pre as [|c t IH]; intros st H; [reflexivity|].
+  cbn [forallb] in H. apply andb_true_iff in H. destruct H as [Hc Ht].
+  destruct c; try discriminate.
+  unfold lay_rr. cbn [flat_map app vals map rcurves].
+  change (map ev (flat_map (fun c => match c with ECurve a b c d e f => [a; b; c; d; e; f] | _ => [] end) t))
+    with (vals (lay_rr t)).
+  rewrite IH by assumption. rewrite pst_of_curve. reflexivity.
+Qed.
+
+Lemma rcurves_pend st a : pend (rcurves st a) = pend st /\ stk (rcurves st a) = stk st.
+Proof. pose proof (keep_rcurves (length a) a st (le_n _)) as K. unfold keep in K. tauto. Qed.
+
+Lemma mod6_mul k : ((6 * k) mod 6 = 0)%nat.
+Proof. rewrite Nat.mul_comm. apply Nat.mod_mul. lia. Qed.
+
+Lemma rrcurveto_edge_ok cs0 k :
+  run_wf cs0 -> (1 <= k <= length cs0)%nat -> forallb is_curve (firstn k cs0) = true ->
+  (6 * k <= t2_max_stack)%nat ->
+  edge_ok cs0 (mkEdge (lay_rr (firstn k cs0)) ORrcurveto k).
+Proof.
+  intros Hwf Hk Hl Hfit. unfold edge_ok. cbn [e_to e_args e_op].
+  assert (Hlen : length (lay_rr (firstn k cs0)) = (6 * k)%nat).
+  { rewrite lay_rr_length by assumption. rewrite firstn_length. lia. }
+  split; [exact Hk|]. split.
+  { apply lay_rr_wf. rewrite <- (firstn_skipn k cs0) in Hwf. apply run_wf_app in Hwf. tauto. }
+  split; [lia|].
+  intros st p Hat Hm. cbn [do_op].
+  destruct Hat as (Hp & Hs & Hpend).
+  assert (Hn : length (args (tick st)) = (6 * k)%nat).
+  { unfold args. cbn [stk tick]. rewrite Hs, !rev_length. unfold vals. rewrite map_length. exact Hlen. }
+  rewrite Hn.
+  apply drawing_spec with (s := rev (vals (lay_rr (firstn k cs0)))).
+  - repeat split; assumption.
+  - apply andb_true_iff. split; [apply Nat.leb_le; lia|]. rewrite mod6_mul. reflexivity.
+  - exact Hm.
+  - rewrite rev_involutive. rewrite rcurves_adv by assumption. rewrite pst_of_tick, Hp. reflexivity.
+  - rewrite rev_involutive. rewrite (proj1 (rcurves_pend _ _)). exact Hpend.
+Qed.
+
+Definition rr_inv (cs0 pre cs : list ecmd) (code : list enum) (pos : nat) : Prop :=
+  cs0 = pre ++ cs /\ code = lay_rr pre /\ pos = length pre /\ forallb is_curve pre = true.
+
+Lemma rr_loop_ok cs0 : run_wf cs0 -> forall cs pre code pos,
+  rr_inv cs0 pre cs code pos ->
+  Forall (edge_ok cs0) (fst (rr_loop cs code pos)) /\
+  (let '(rest, codef, posf) := snd (rr_loop cs code pos) in
+   exists pre', rr_inv cs0 pre' rest codef posf /\ (pos <= posf)%nat).
+Proof.
+  intros Hwf. induction cs as [|c t IH]; intros pre code pos Hinv.
+  - cbn. split; [constructor|]. exists pre. split; [exact Hinv|lia].
+  - destruct c as [a b|dx dy|a0 a1 a2 a3 a4 a5|k bs];
+      try (cbn; split; [constructor|]; exists pre; split; [exact Hinv|lia]).
+    cbn [rr_loop]. destruct (fits code 6) eqn:F;
+      [|cbn; split; [constructor|]; exists pre; split; [exact Hinv|lia]].
+    destruct Hinv as (H0 & Hc & Hp & Hl).
+    assert (Hinv' : rr_inv cs0 (pre ++ [ECurve a0 a1 a2 a3 a4 a5]) t (code ++ [a0; a1; a2; a3; a4; a5]) (S pos)).
+    { unfold rr_inv. repeat split.
+      - rewrite <- app_assoc. exact H0.
+      - rewrite lay_rr_app, Hc. reflexivity.
+      - rewrite app_length. cbn. lia.
+      - rewrite forallb_app, Hl. reflexivity. }
+    specialize (IH _ _ _ Hinv').
+    destruct (rr_loop t (code ++ [a0; a1; a2; a3; a4; a5]) (S pos)) as [es fin] eqn:E. cbn [fst snd] in *.
+    destruct IH as [IH1 IH2]. split.
+    + apply Forall_app. split; [|exact IH1].
+      match goal with |- Forall _ (if ?c then _ else _) => destruct c end; constructor; [|constructor].
+      destruct Hinv' as (H0' & Hc' & Hp' & Hl').
+      assert (Hf : firstn (S pos) cs0 = pre ++ [ECurve a0 a1 a2 a3 a4 a5]).
+      { rewrite Hp', H0'. apply firstn_pre. }
+      rewrite Hc', <- Hf.
+      apply rrcurveto_edge_ok; auto.
+      * rewrite H0'. rewrite app_length, <- Hp'. lia.
+      * rewrite Hf. exact Hl'.
+      * apply fits_le in F. rewrite Hc in F. rewrite lay_rr_length in F by assumption. lia.
+    + destruct fin as [[rest codef] posf]. destruct IH2 as (pre' & Hi & Hle).
+      exists pre'. split; [exact Hi|lia].
+Qed.
+
+Lemma rr_loop_advance cs code pos a0 a1 a2 a3 a4 a5 t :
+  cs = ECurve a0 a1 a2 a3 a4 a5 :: t -> fits code 6 = true ->
+  let '(_, _, posf) := snd (rr_loop cs code pos) in (S pos <= posf)%nat.
+Proof.
+  intros -> F. cbn [rr_loop]. rewrite F.
+  destruct (rr_loop t (code ++ [a0; a1; a2; a3; a4; a5]) (S pos)) as [es [[rest codef] posf]] eqn:E. cbn [snd].
+  assert (G : forall cs code pos, let '(_, _, pf) := snd (rr_loop cs code pos) in (pos <= pf)%nat).
+  { clear. induction cs as [|c t IH]; intros code pos; [cbn; lia|].
+    destruct c; try (cbn; lia). cbn [rr_loop]. destruct (fits code 6); [|cbn; lia].
+    specialize (IH (code ++ [a0; a1; a2; a3; a4; a5]) (S pos)).
+    destruct (rr_loop t (code ++ [a0; a1; a2; a3; a4; a5]) (S pos)) as [es [[rest codef] posf]]. cbn [snd] in *. lia. }
+  specialize (G t (code ++ [a0; a1; a2; a3; a4; a5]) (S pos)). rewrite E in G. cbn [snd] in G. exact G.
+Qed.
+
+(* ---------------- rlinecurve and rcurveline ---------------- *)
+
+Lemma firstn_app_exact {A} (a b : list A) n : n = length a -> firstn n (a ++ b) = a.
+Proof. intros ->. apply firstn_pre. Qed.
+
+Lemma skipn_app_exact {A} (a b : list A) n : n = length a -> skipn n (a ++ b) = b.
+Proof. intros ->. rewrite skipn_app, Nat.sub_diag, skipn_all. reflexivity. Qed.
+
+Lemma rlinecurve_edge_ok cs0 pre a0 a1 a2 a3 a4 a5 rest :
+  run_wf cs0 -> cs0 = pre ++ ECurve a0 a1 a2 a3 a4 a5 :: rest ->
+  forallb is_line pre = true -> (1 <= length pre)%nat ->
+  (2 * length pre + 6 <= t2_max_stack)%nat ->
+  edge_ok cs0 (mkEdge (lay_rl pre ++ [a0; a1; a2; a3; a4; a5]) ORlinecurve (S (length pre))).
+Proof.
+  intros Hwf H0 Hl Hk Hfit. unfold edge_ok. cbn [e_to e_args e_op].
+  set (k := length pre) in *.
+  assert (Hlen : length (lay_rl pre) = (2 * k)%nat) by (apply lay_rl_length; assumption).
+  assert (Hf : firstn (S k) cs0 = pre ++ [ECurve a0 a1 a2 a3 a4 a5]).
+  { rewrite H0. change (ECurve a0 a1 a2 a3 a4 a5 :: rest) with ([ECurve a0 a1 a2 a3 a4 a5] ++ rest).
+    rewrite app_assoc. apply firstn_app_exact. rewrite app_length. cbn. lia. }
+  assert (Hw2 : run_wf (pre ++ [ECurve a0 a1 a2 a3 a4 a5])).
+  { rewrite <- Hf. rewrite <- (firstn_skipn (S k) cs0) in Hwf. apply run_wf_app in Hwf. tauto. }
+  apply run_wf_app in Hw2. destruct Hw2 as [Hwp Hwc].
+  split. { rewrite H0, app_length. cbn [length]. lia. }
+  split. { apply Forall_app. split; [apply lay_rl_wf; assumption|]. inversion Hwc; subst. assumption. }
+  split. { rewrite app_length, Hlen. cbn [length]. lia. }
+  intros st p Hat Hm. cbn [do_op].
+  destruct Hat as (Hp & Hs & Hpend).
+  assert (Hn : length (args (tick st)) = (2 * k + 6)%nat).
+  { unfold args. cbn [stk tick]. rewrite Hs, !rev_length. unfold vals. rewrite map_length, app_length, Hlen.
+    cbn [length]. lia. }
+  rewrite Hn. rewrite Hf.
+  apply drawing_spec with (s := rev (vals (lay_rl pre ++ [a0; a1; a2; a3; a4; a5]))).
+  - repeat split; assumption.
+  - apply andb_true_iff. split; [apply Nat.leb_le; lia|].
+    replace (2 * k + 6)%nat with (2 * (k + 3))%nat by lia. rewrite Nat.even_mul. reflexivity.
+  - exact Hm.
+  - rewrite rev_involutive, vals_app.
+    replace (2 * k + 6 - 6)%nat with (2 * k)%nat by lia.
+    rewrite firstn_app_exact, skipn_app_exact by (unfold vals; rewrite map_length; lia).
+    cbn [vals map rcurves]. rewrite pst_of_curve, rlines_adv by assumption.
+    rewrite pst_of_tick, Hp, adv_app. reflexivity.
+  - rewrite rev_involutive, vals_app.
+    replace (2 * k + 6 - 6)%nat with (2 * k)%nat by lia.
+    rewrite firstn_app_exact, skipn_app_exact by (unfold vals; rewrite map_length; lia).
+    rewrite (proj1 (rcurves_pend _ _)), (proj1 (rlines_pend _ _)). exact Hpend.
+Qed.
+
+Lemma rcurveline_edge_ok cs0 pre dx dy rest :
+  run_wf cs0 -> cs0 = pre ++ ELine dx dy :: rest ->
+  forallb is_curve pre = true -> (1 <= length pre)%nat ->
+  (6 * length pre + 2 <= t2_max_stack)%nat ->
+  edge_ok cs0 (mkEdge (lay_rr pre ++ [dx; dy]) ORcurveline (S (length pre))).
+Proof.
+  intros Hwf H0 Hl Hk Hfit. unfold edge_ok. cbn [e_to e_args e_op].
+  set (k := length pre) in *.
+  assert (Hlen : length (lay_rr pre) = (6 * k)%nat) by (apply lay_rr_length; assumption).
+  assert (Hf : firstn (S k) cs0 = pre ++ [ELine dx dy]).
+  { rewrite H0. change (ELine dx dy :: rest) with ([ELine dx dy] ++ rest).
+    rewrite app_assoc. apply firstn_app_exact. rewrite app_length. cbn. lia. }
+  assert (Hw2 : run_wf (pre ++ [ELine dx dy])).
+  { rewrite <- Hf. rewrite <- (firstn_skipn (S k) cs0) in Hwf. apply run_wf_app in Hwf. tauto. }
+  apply run_wf_app in Hw2. destruct Hw2 as [Hwp Hwc].
+  split. { rewrite H0, app_length. cbn [length]. lia. }
+  split. { apply Forall_app. split; [apply lay_rr_wf; assumption|]. inversion Hwc; subst. assumption. }
+  split. { rewrite app_length, Hlen. cbn [length]. lia. }
+  intros st p Hat Hm. cbn [do_op].
+  destruct Hat as (Hp & Hs & Hpend).
+  assert (Hn : length (args (tick st)) = (6 * k + 2)%nat).
+  { unfold args. cbn [stk tick]. rewrite Hs, !rev_length. unfold vals. rewrite map_length, app_length, Hlen.
+    cbn [length]. lia. }
+  rewrite Hn. rewrite Hf.
+  apply drawing_spec with (s := rev (vals (lay_rr pre ++ [dx; dy]))).
+  - repeat split; assumption.
+  - apply andb_true_iff. split; [apply Nat.leb_le; lia|].
+    replace (6 * k + 2 - 2)%nat with (6 * k)%nat by lia. rewrite mod6_mul. reflexivity.
+  - exact Hm.
+  - rewrite rev_involutive, vals_app.
+    replace (6 * k + 2 - 2)%nat with (6 * k)%nat by lia.
+    rewrite firstn_app_exact, skipn_app_exact by (unfold vals; rewrite map_length; lia).
+    cbn [vals map rlines]. rewrite pst_of_line, rcurves_adv by assumption.
+    rewrite pst_of_tick, Hp, adv_app. reflexivity.
+  - rewrite rev_involutive, vals_app.
+    replace (6 * k + 2 - 2)%nat with (6 * k)%nat by lia.
+    rewrite firstn_app_exact, skipn_app_exact by (unfold vals; rewrite map_length; lia).
+    rewrite (proj1 (rlines_pend _ _)), (proj1 (rcurves_pend _ _)). exact Hpend.
+Qed.
